@@ -165,8 +165,9 @@ func (in *vC12Intern) paths(v vC12View) (string, map[string]any) {
 // ---- generators ----------------------------------------------------------------------------------------
 
 type vC12Gen struct {
-	r    *vRand
-	http bool
+	r       *vRand
+	http    bool
+	lastBad []string // keys of the last generated body whose value is invalid by construction
 }
 
 var vC12Names = []string{"cam1", "cam2", "a/b", "~^live/(.+)$", "all_others", "cam1", "cam2", "live/x", "all", "~^.*$",
@@ -267,6 +268,7 @@ func (g *vC12Gen) globalField() (vC12KV, bool) {
 // a JSON object with 0..4 fields
 func (g *vC12Gen) body(global bool) (string, bool) {
 	r := g.r
+	g.lastBad = nil
 	if r.Chance(1, 40) {
 		return vPick(r, []string{`{`, `[]`, `"x"`, ``, `{"source":}`, `{"a":1}{"b":2}`, `{"source":"publisher",}`}), true
 	}
@@ -277,6 +279,7 @@ func (g *vC12Gen) body(global bool) (string, bool) {
 	var parts []string
 	seen := map[string]bool{}
 	mustReject := false
+	g.lastBad = nil
 	for i := 0; i < nf; i++ {
 		var kv vC12KV
 		var bad bool
@@ -290,6 +293,9 @@ func (g *vC12Gen) body(global bool) (string, bool) {
 		}
 		seen[kv.k] = true
 		mustReject = mustReject || bad
+		if bad {
+			g.lastBad = append(g.lastBad, kv.k)
+		}
 		parts = append(parts, vC12Q(kv.k)+":"+kv.v)
 	}
 	return "{" + strings.Join(parts, ",") + "}", mustReject
@@ -992,8 +998,18 @@ func TestVerifC12(t *testing.T) {
 				os.WriteFile(inflight, b, 0o644) //nolint:errcheck
 			}
 			fields, decOK := vC12Decode(op)
-			if op.kind == "defaults" && decOK && len(prev.cells) == 0 {
-				mustReject = false // path defaults are validated through the paths only
+			if op.kind == "defaults" && decOK && mustReject {
+				// path defaults are validated through the paths only: an invalid default value is refused exactly when
+				// some configured path inherits it (does not set that field itself)
+				inherited := false
+				for _, cell := range prev.cells {
+					for _, k := range g.lastBad {
+						if _, set := cell[k]; !set {
+							inherited = true
+						}
+					}
+				}
+				mustReject = inherited
 			}
 			nameOK := !(useHTTP && op.name == "" && op.kind != "global" && op.kind != "defaults")
 
